@@ -10,7 +10,7 @@ use crate::{Amr, BitIter, BitWriter, Cmr, DecodeError, Ihr, Imr, Value};
 
 use super::{
     Commit, CommitData, CommitNode, Construct, ConstructData, ConstructNode, Constructible,
-    Converter, Hide, Inner, Marker, NoDisconnect, NoWitness, Node,
+    Converter, Hide, Inner, Marker, NoDisconnect, NoWitness, Node, WitnessConstructible,
 };
 
 use std::collections::HashSet;
@@ -297,6 +297,70 @@ impl RedeemNode {
         struct Pruner<'brand, 't, T> {
             inference_context: types::Context<'brand>,
             tracker: &'t mut T,
+            /// Nodes of the unpruned program that remain reachable from the root once
+            /// unused case branches are hidden. `None` until computed.
+            live: Option<HashSet<*const RedeemNode>>,
+        }
+
+        impl<T: PruneTracker> Pruner<'_, '_, T> {
+            /// Decide which child of a case node (identified by its IHR) to hide.
+            fn hide(&self, ihr: Ihr) -> Hide {
+                match (
+                    self.tracker.contains_left(ihr),
+                    self.tracker.contains_right(ihr),
+                ) {
+                    (true, true) => Hide::Neither,
+                    (false, true) => Hide::Left,
+                    (true, false) => Hide::Right,
+                    (false, false) => Hide::Neither, // case nodes that were never executed will be pruned out by their ancestors
+                }
+            }
+
+            /// Compute the set of nodes that survive pruning.
+            fn compute_live(&mut self, root: &RedeemNode) {
+                let mut live = HashSet::new();
+                let mut stack = vec![root];
+                while let Some(node) = stack.pop() {
+                    if !live.insert(node as *const RedeemNode) {
+                        continue;
+                    }
+                    match node.inner() {
+                        Inner::Case(left, right) => match self.hide(node.ihr()) {
+                            Hide::Neither => {
+                                stack.push(left);
+                                stack.push(right);
+                            }
+                            Hide::Left => stack.push(right),
+                            Hide::Right => stack.push(left),
+                        },
+                        Inner::InjL(sub)
+                        | Inner::InjR(sub)
+                        | Inner::Take(sub)
+                        | Inner::Drop(sub)
+                        | Inner::AssertL(sub, _)
+                        | Inner::AssertR(_, sub) => stack.push(sub),
+                        Inner::Comp(left, right)
+                        | Inner::Pair(left, right)
+                        | Inner::Disconnect(left, right) => {
+                            stack.push(left);
+                            stack.push(right);
+                        }
+                        Inner::Iden
+                        | Inner::Unit
+                        | Inner::Witness(..)
+                        | Inner::Fail(..)
+                        | Inner::Jet(..)
+                        | Inner::Word(..) => {}
+                    }
+                }
+                self.live = Some(live);
+            }
+
+            fn is_live(&self, node: &RedeemNode) -> bool {
+                self.live
+                    .as_ref()
+                    .map_or(true, |live| live.contains(&(node as *const RedeemNode)))
+            }
         }
 
         impl<'brand, 't, T> Converter<Redeem, Construct<'brand>> for Pruner<'brand, 't, T>
@@ -337,26 +401,34 @@ impl RedeemNode {
                 // The IHR of the pruned program may change,
                 // but the Converter trait gives us access to the unpruned node (`data`).
                 // The Bit Machine tracked (un)used case branches based on the unpruned IHR.
-                match (
-                    self.tracker.contains_left(data.node.ihr()),
-                    self.tracker.contains_right(data.node.ihr()),
-                ) {
-                    (true, true) => Ok(Hide::Neither),
-                    (false, true) => Ok(Hide::Left),
-                    (true, false) => Ok(Hide::Right),
-                    (false, false) => Ok(Hide::Neither), // case nodes that were never executed will be pruned out by their ancestors
+                if self.is_live(data.node) {
+                    Ok(self.hide(data.node.ihr()))
+                } else {
+                    Ok(Hide::Neither)
                 }
             }
 
             fn convert_data(
                 &mut self,
-                _: &PostOrderIterItem<&RedeemNode>,
+                data: &PostOrderIterItem<&RedeemNode>,
                 inner: Inner<
                     &Arc<ConstructNode<'brand>>,
                     &Option<Arc<ConstructNode<'brand>>>,
                     &Option<Value>,
                 >,
             ) -> Result<ConstructData<'brand>, Self::Error> {
+                if !self.is_live(data.node) {
+                    // This node only occurs inside pruned branches. It will not be part of
+                    // the pruned program, so it must not take part in type inference either:
+                    // it may share children with the remaining program, and the constraints
+                    // of the pruned branch would make their types needlessly specific. The
+                    // resulting program would then differ from what decoding its own
+                    // serialization (which re-infers the types) yields. Give it a free arrow.
+                    return Ok(<ConstructData as WitnessConstructible<Option<Value>>>::witness(
+                        &self.inference_context,
+                        None,
+                    ));
+                }
                 let converted_inner = inner
                     .map(|node| node.cached_data())
                     .map_witness(Option::<Value>::clone);
@@ -430,9 +502,14 @@ impl RedeemNode {
         // we construct a temporary witness program with unfinalized types.
         types::Context::with_context(|inference_context| {
             let pruned_witness_program = self
-                .convert::<InternalSharing, _, _>(&mut Pruner {
-                    inference_context,
-                    tracker,
+                .convert::<InternalSharing, _, _>(&mut {
+                    let mut pruner = Pruner {
+                        inference_context,
+                        tracker,
+                        live: None,
+                    };
+                    pruner.compute_live(self);
+                    pruner
                 })
                 .expect("pruning unused branches is infallible");
 
